@@ -203,6 +203,14 @@ def measureMask (r : QReg R) (mask randIdx : Nat) : QReg R × CReg :=
   if mask = 0 then (r, CReg.new r.qNum)
   else ((r.collapseMask randIdx mask).normalize, CReg.withState r.qNum (randIdx &&& mask))
 
+/-- `QReg::reset_by_mask` (after the D12 repair): measure the named qubits (`randIdx` is the
+drawn basis index) and flip those found in `|1>`; naming every qubit resets the register. -/
+def resetByMask (r : QReg R) (mask randIdx : Nat) : QReg R :=
+  if mask &&& r.qMask = r.qMask then r.reset 0
+  else
+    let (r', c) := r.measureMask mask randIdx
+    if c.value ≠ 0 then r'.apply (Op.x c.value) else r'
+
 end arith
 
 /-! ### `sample_all`
@@ -245,6 +253,33 @@ def sampleFix (qMask : Nat) (n0 : List Nat) (pos : List Bool) (count : Nat) : Op
   else if total > count then
     removeSurplus qMask ((total - count) * (n0.length + 1) + n0.length + 1) 0 (total - count) n0
   else some n0
+
+/-- numeric conversions used by stage 1 of `sample_all` -/
+class HasRound (R : Type) where
+  /-- `count as R` -/
+  ofNat : Nat → R
+  /-- `x.round() as Z` (half away from zero, saturating) -/
+  roundInt : R → Int
+
+section proposal
+variable {R : Type} [Add R] [Sub R] [Mul R] [Neg R] [Zero R] [One R] [Div R] [HasSqrt R] [HasRound R]
+  [LT R] [DecidableLT R]
+
+/-- stage 1 of `sample_all`: `p` the reported probabilities, `g` the standard-normal draws -/
+def sampleProposal (p : List R) (count : Nat) (g : List R) : List Nat :=
+  let c : R := HasRound.ofNat count
+  let cSqrt := HasSqrt.sqrt c
+  let n : List R := (p.zip g).map (fun pg => HasSqrt.sqrt pg.1 * pg.2)
+  let nSum : R := n.foldl (· + ·) 0
+  (p.zip n).map (fun pn =>
+    (max (HasRound.roundInt (c * pn.1 + cSqrt * (pn.2 - nSum * pn.1))) 0).toNat)
+
+/-- `QReg::sample_all` (after the D4/D5 repair) with the normal draws as input -/
+def sampleAll (r : QReg R) (count : Nat) (g : List R) : Option (List Nat) :=
+  let p := r.getProbabilities
+  sampleFix r.qMask (sampleProposal p count g) (p.map (fun x => decide (0 < x))) count
+
+end proposal
 
 end QReg
 end Qvnt
